@@ -55,6 +55,10 @@ func (o opSpec) String() string {
 	return o.Op
 }
 
+// Identifiers of registry histories keep version-like text out of their directories:
+// ScanStorage deliberately skips every directory whose name carries a version marker
+// ("these will be unpacked resources"). The pure file-name conversion has no such rule
+// and is exercised with versioned directories by the name cases (genFmtDir).
 var (
 	idDirs  = []string{"", "all/", "all/ui/modules/", "linux_amd64/core/", "windows_amd64/start/", "all/intel/geoip/"}
 	idNames = []string{"portmaster-core", "assets", "base", "geoipv4", "my_tool", "notifier", "x", "app2", "index-data", "ui-kit"}
@@ -260,14 +264,37 @@ func genFmtName(r *vlib.Rand) string {
 	}
 }
 
-func genFmtDir(r *vlib.Rand) string {
+// verMarker is the text a version takes inside a versioned file name ("_v1-2-3[-tag]").
+func verMarker(version string) string {
+	return "_v" + strings.Replace(version, ".", "-", 2)
+}
+
+// genFmtDir generates the directory part of an identifier. The version marker is
+// defined for the file name only (the regex is applied to the last path element),
+// directory components are free: they may contain dots and version-like text - in
+// particular text equal to the marker of the file's own version, a marker the file's
+// marker is a prefix of (tag-less file version, tagged directory), the tag-less part
+// of a tagged file version, or an unrelated version (unpacked-bundle style directories).
+func genFmtDir(r *vlib.Rand, version string) string {
+	base, tag, _ := strings.Cut(version, "-")
 	var d string
 	for i, n := 0, r.Intn(4); i < n; i++ {
-		switch r.Intn(6) {
+		switch r.Intn(8) {
 		case 0:
 			d += genWord(r, lower, 1, 5) + "_v1-2-3/" // markers in directories are not file versions
 		case 1:
 			d += genWord(r, lower, 1, 5) + "." + genWord(r, lower, 1, 3) + "/"
+		case 2: // same marker as the file
+			d += genWord(r, lower, 0, 5) + verMarker(version) + vlib.Pick(r, "", "", ".d", "x") + "/"
+		case 3: // related marker
+			switch {
+			case tag == "" && r.Bool():
+				d += genWord(r, lower, 1, 5) + verMarker(base) + "-" + genWord(r, lower, 1, 6) + "/" // file marker is a prefix
+			case tag != "":
+				d += genWord(r, lower, 1, 5) + verMarker(base) + "/" // tag-less part of the file's version
+			default:
+				d += genWord(r, lower, 1, 5) + verMarker(genFmtVersion(r)) + "/" // another version
+			}
 		default:
 			d += genWord(r, lower+"0123456789_-", 1, 8) + "/"
 		}
